@@ -197,6 +197,17 @@ def coverage_gate(ctx, stats, events):
                 if not (c2.get("err") or c2.get("panic")):
                     need.append("%s:%s never failed" % (tr, op))
     if ctx.pid == "C04":
+        # shapes that earlier seeded defects needed: vectored writes of four or more slices that are refused, and
+        # multi-segment transfers through the crate's own async File (c = 0) in both directions
+        wide = sum(1 for e in events if e["e"] == "Op" and e["op"] == "write_vectored" and len(e.get("data", [])) >= 4 and e["res"] != "ok")
+        areal = sum(1 for e in events if e["e"] == "Op" and e["op"] in ("async_read_to_at", "async_write_from_at") and e["c"] == 0
+                    and e.get("ret", 0) > 0 and len(e.get("fdiff") or e.get("diff") or []) >= 3)
+        ctx.extra["refused_vectored_writes_of_4_or_more_slices"] = wide
+        ctx.extra["multi_segment_transfers_through_async_file"] = areal
+        if not wide:
+            need.append("no refused write_vectored with >= 4 slices")
+        if not areal:
+            need.append("no multi-segment transfer through async_file::File")
         for op in FVS_ENTRY:
             if not stats.get("fvs:%s" % op, {}).get("calls"):
                 need.append("fvs:%s never called" % op)
